@@ -148,6 +148,8 @@ class Judge:
         self.fail_cases = 0
         self.identical_entries = 0
         self.differing_entries = 0
+        self.ext_subsets = set()
+        self.compat_only = 0
 
     def report(self, key, what, case, obs, extra=None):
         n = self.per_key.get(key, 0)
@@ -170,7 +172,7 @@ class Judge:
         op = ctx.path("obs-%s.ndjson" % tag)
         ids = sorted(cases)
         lib.write_ndjson(cp, [{"id": i, "T": cases[i]["T"], "j": cases[i]["j"]} for i in ids])
-        extmod = 4   # entry "ext" (everything that writes `extensions` switched on) for every N-th case
+        extmod = 4 if ctx.quick() else 8   # 8 subsets of the sources that write `extensions` (entries x:<mask>) for every N-th case
         ctx.run_bin(self.binary, ["-in", cp, "-out", op, "-entries", ",".join(ENTRIES), "-extmod", str(extmod)], timeout=1800)
         lines = []  # (case id, obs) to be judged by TLC
         failing = set()
@@ -188,7 +190,7 @@ class Judge:
                 group.append(o)
             if group:
                 self._group(cases[cur], group, lines, failing)
-        if nobs != len(ids) * len(ENTRIES) + (len(ids) + extmod - 1) // extmod:
+        if nobs != len(ids) * len(ENTRIES) + 8 * ((len(ids) + extmod - 1) // extmod):
             raise lib.Inconclusive("harness returned %d observations for %d cases" % (nobs, len(ids)))
         self.evaluations += nobs
         # ---- TLC judges the observations, batch by batch
@@ -232,8 +234,10 @@ class Judge:
 
     def _group(self, case, group, lines, failing):
         """Go-side verdicts that need no oracle + de-duplication of identical outputs of the entry points."""
-        raws = set()
+        seen = set()
         for o in group:
+            xmask = int(o["entry"][2:]) if o["entry"].startswith("x:") else None
+            sfx = ":extensions" if xmask is not None else ""
             if o.get("panic"):
                 failing.add(case["id"])
                 self.report("panic:" + (o.get("site") or "unknown"), "the renderer panicked (%s in %s)" % (o["panic"], o.get("site")), case, o)
@@ -246,24 +250,37 @@ class Judge:
                 continue
             if not o["valid"]:
                 failing.add(case["id"])
-                self.report("invalid-json", "the response is not one syntactically valid JSON value (%s)" % o.get("why"), case, o)
+                self.report("invalid-json" + sfx, "the response is not one syntactically valid JSON value (%s)" % o.get("why"), case, o)
                 continue
             if o["dup"]:
                 failing.add(case["id"])
-                self.report("duplicate-key" + (":ext" if o["entry"] == "ext" else ""), "an object in the response has a duplicate key", case, o)
-            if o["entry"] == "ext":
-                top = dict(zip(o["out"]["k"], o["out"]["v"])) if o["out"]["t"] == "o" else {}
-                ext = top.get("extensions", {"t": "x"})
-                keys = ext.get("k", []) if ext["t"] == "o" else None
-                if keys is None or sorted(keys) != ["authorization", "k", "rateLimit"]:
+                self.report("duplicate-key" + sfx, "an object in the response has a duplicate key", case, o)
+            out = o["out"]
+            if xmask is not None:
+                # every subset of the extension sources, also with the Apollo value-completion option: the document is
+                # well-formed (above) and `extensions` holds exactly the switched-on sources, each once
+                self.ext_subsets.add(xmask)
+                top = dict(zip(out["k"], out["v"])) if out["t"] == "o" else {}
+                ext = top.get("extensions")
+                keys = sorted(ext["k"]) if ext is not None and ext["t"] == "o" else ([] if ext is None else None)
+                want = sorted(k for bit, k in ((2, "authorization"), (4, "k"), (8, "rateLimit"), (16, "queryPlan"), (32, "trace")) if xmask & bit)
+                if keys is None or [k for k in keys if k != "valueCompletion"] != want or ("valueCompletion" in keys and not xmask & 1):
                     failing.add(case["id"])
-                    self.report("extensions-content", "extensions must hold authorization, rateLimit and the allowed subgraph key k exactly once, got %s" % keys, case, o)
-            if o["raw"] in raws:
+                    self.report("extensions-content", "extensions must hold exactly %s (+ valueCompletion with the option), got %s" % (want, keys), case, o)
+                if xmask & 1:
+                    self.compat_only += 1
+                    continue  # Apollo-compat option: only well-formedness is demanded, the relation is for the standard mode
+                if ext is not None:
+                    i = out["k"].index("extensions")
+                    out = {"t": "o", "k": out["k"][:i] + out["k"][i + 1:], "v": out["v"][:i] + out["v"][i + 1:]}
+                    o = dict(o, out=out)
+            key = json.dumps(out, separators=(",", ":"), sort_keys=True)
+            if key in seen:
                 self.identical_entries += 1
-                continue  # byte-identical to an output of another entry point that TLC judges
-            if raws:
+                continue  # same response (extensions aside) as another entry point's, which TLC judges
+            if seen:
                 self.differing_entries += 1
-            raws.add(o["raw"])
+            seen.add(key)
             lines.append((case["id"], o))
 
 
@@ -430,6 +447,8 @@ def run(ctx):
         "cases_with_failure": judge.fail_cases,
         "entry_point_outputs_identical": judge.identical_entries,
         "entry_point_outputs_differing": judge.differing_entries,
+        "extension_source_subsets_exercised": len(judge.ext_subsets),
+        "renderings_with_apollo_value_completion_judged_for_well_formedness_only": judge.compat_only,
         "model_invariants": MODEL_INVS,
         "relation_conjuncts": CONJUNCTS,
         "samples": samples[:6],
